@@ -118,6 +118,22 @@ pub proof fn lemma_cnt_le_len(s: Seq<Option<real>>)
     if s.len() > 0 { lemma_cnt_le_len(s.drop_last()); }
 }
 
+pub proof fn lemma_cnt_pos_has_some(s: Seq<Option<real>>)
+    requires cnt(s) > 0,
+    ensures exists|t: int| 0 <= t < s.len() && (#[trigger] s[t]).is_some(),
+    decreases s.len()
+{
+    if s.len() > 0 {
+        if s.last().is_some() {
+            assert(s[s.len() - 1].is_some());
+        } else {
+            lemma_cnt_pos_has_some(s.drop_last());
+            let t = choose|t: int| 0 <= t < s.drop_last().len() && (#[trigger] s.drop_last()[t]).is_some();
+            assert(s[t] == s.drop_last()[t]);
+        }
+    }
+}
+
 pub proof fn lemma_push(s: Seq<Option<real>>, v: Option<real>)
     ensures
         cnt(s.push(v)) == cnt(s) + cv(v),
@@ -212,4 +228,18 @@ pub proof fn lemma_step_vals<T: IsNone, OT>(h0: Seq<Call<T, OT>>, rm: Option<T>,
         assert(vals(wpt) =~= wp);
         assert(wp[0] == val(rm.unwrap()));
     }
+}
+
+// ---- C06: the window of position i never reaches past i, so a prefix of the series has the same windows
+pub proof fn lemma_wnd_prefix<T>(x: Seq<T>, c: int, window: usize, i: int)      // #C06 window_of_prefix_is_window
+    requires 0 <= i < c <= x.len(), window >= 1,
+    ensures wnd(x.take(c), window, i) =~= wnd(x, window, i),
+{
+}
+// ... and never before i-w+1: two series that agree on [i-w+1, i] have the same window at i
+pub proof fn lemma_wnd_only_window<T>(x: Seq<T>, y: Seq<T>, window: usize, i: int)   // #C06 window_ignores_pre_window_history
+    requires 0 <= i < x.len(), x.len() == y.len(), window >= 1,
+        forall|t: int| wstart(window as int, i) <= t <= i ==> x[t] == y[t],
+    ensures wnd(x, window, i) =~= wnd(y, window, i),
+{
 }
